@@ -625,6 +625,9 @@ pub struct Gen {
     pub max_depth: u32,
     /// plant shell errors (expansion, assignment, redirection, special built-in) — C10
     pub errors: bool,
+    /// ranks of the function names defined so far in generation order (calls prefer these, so that
+    /// function bodies — `return`, `break` through a call, locals — are actually executed)
+    pub defined: Vec<usize>,
 }
 impl Gen {
     fn probe(&mut self) -> Cmd {
@@ -670,8 +673,12 @@ impl Gen {
             72..=74 => Cmd::Exit(if r % 2 == 0 { None } else { Some(r as u32 % 5) }),
             75..=84 => {
                 let names = ["f0", "f1", "f2", "ok"];
-                if self.call_limit == 0 || self.rng.chance(1, 6) {
+                let callable: Vec<usize> =
+                    self.defined.iter().copied().filter(|r| *r < self.call_limit.min(4)).collect();
+                if self.call_limit == 0 || self.rng.chance(1, 8) {
                     Cmd::Call(":")
+                } else if !callable.is_empty() && self.rng.chance(4, 5) {
+                    Cmd::Call(names[*self.rng.pick(&callable)])
                 } else {
                     Cmd::Call(names[self.rng.below(self.call_limit.min(4))])
                 }
@@ -819,6 +826,9 @@ impl Gen {
                     _ => Cmd::Group(self.list(d, 3)),
                 };
                 self.call_limit = saved;
+                if rank < 4 && !self.defined.contains(&rank) {
+                    self.defined.push(rank);
+                }
                 Cmd::Def(names[rank], Box::new(body))
             }
         }
@@ -839,6 +849,28 @@ impl Gen {
             if !first.is_empty() {
                 lines.push(Line::Cmds(first));
             }
+        }
+        if self.rng.chance(1, 2) {
+            // define one or two functions up front so that later calls reach a body
+            let mut defs = vec![];
+            for _ in 0..1 + self.rng.below(2) {
+                let names = ["f0", "f1", "f2", "ok"];
+                let rank = self.rng.below(4);
+                let saved = self.call_limit;
+                self.call_limit = saved.min(rank);
+                let mut body = self.list(1, 3);
+                if self.rng.chance(1, 2) {
+                    let r = Cmd::Ret(if self.rng.chance(1, 4) { None } else { Some(self.rng.below(7) as u32) });
+                    let at = self.rng.below(body.len() + 1);
+                    body.insert(at, Item(Pipeline(false, vec![r]), vec![]));
+                }
+                self.call_limit = saved;
+                if !self.defined.contains(&rank) {
+                    self.defined.push(rank);
+                }
+                defs.push(Item(Pipeline(false, vec![Cmd::Def(names[rank], Box::new(Cmd::Group(body)))]), vec![]));
+            }
+            lines.push(Line::Cmds(defs));
         }
         for _ in 0..nlines {
             lines.push(Line::Cmds(self.list(0, 3)));
